@@ -53,11 +53,14 @@ func (obj Values) Hierarchy() []Symbol {
 
 // Eval panics.
 func (obj Values) Eval(s *Scope, depth int) Object {
-	return obj[0]
+	return obj.First()
 }
 
-// First value in the multiple values.
+// First value in the multiple values or nil if there are no values.
 func (obj Values) First() Object {
+	if len(obj) == 0 {
+		return nil
+	}
 	return obj[0]
 }
 
